@@ -733,15 +733,26 @@ func (e *specEnv) evalCall(n *ECall) sv {
 				specFail("lemma %s expects %d arguments", lem.Name, len(lem.Params))
 			}
 			bind := map[string]sv{}
+			// a lemma is proved for type-valid arguments only: its instance is guarded accordingly
+			// (an argument such as v.([]any) of a value that is not an array is an arbitrary term)
+			var vg []string
 			for i, p := range lem.Params {
 				bind[p.Name] = as[i]
+				switch types.Unalias(as[i].ty).Underlying().(type) {
+				case *types.Slice:
+					vg = append(vg, app("validSlice", as[i].t))
+				case *types.Interface:
+					vg = append(vg, app("validVal", as[i].t))
+				case *types.Pointer, *types.Map:
+					vg = append(vg, le("0", as[i].t))
+				}
 			}
 			req, ens, _, _, err := c.lemmaParts(lem, bind)
 			if err != nil {
 				specFail("lemma %s: %v", lem.Name, err)
 			}
 			c.usedLemmaCalls[lem.Name] = true
-			return sv{implies(and(req...), and(ens...)), tBool}
+			return sv{implies(and(append(vg, req...)...), and(ens...)), tBool}
 		}
 	}
 	// an axiom applied to arguments denotes its instance for those arguments (explicit
